@@ -47,7 +47,7 @@ STRINGS = ['', 'a', 'b c', 'red', 'green', 'x', 'blue', 'big']
 ENUMS = [{'name': 'Color', 'literals': ['red', 'green', 'blue']}, {'name': 'Size', 'literals': ['red', 'big']}]
 
 
-def make_mm(template_names):
+def make_mm(template_names, diamond=False):
     classes = {'A': {'name': 'A', 'supers': [], 'features': []},
                'B': {'name': 'B', 'supers': [], 'features': []},
                'A2': {'name': 'A2', 'supers': ['A'], 'features': []},
@@ -61,7 +61,12 @@ def make_mm(template_names):
             fd = {'name': name, 'kind': kind, 'type': typ, 'many': many, 'ordered': ordered, 'unique': unique,
                   'containment': cont, 'opposite': [owner_of[opp], opp] if opp else None}
             classes[owner]['features'].append(fd)
-    return {'classes': [classes['A'], classes['B'], classes['A2'], classes['C']], 'enums': ENUMS}
+    extra = []
+    if diamond:
+        # Both -> (L, R) -> A : every feature of A is inherited along two paths
+        extra = [{'name': 'L', 'supers': ['A'], 'features': []}, {'name': 'R', 'supers': ['A'], 'features': []},
+                 {'name': 'Both', 'supers': ['L', 'R'], 'features': []}]
+    return {'classes': [classes['A'], classes['B'], classes['A2'], classes['C']] + extra, 'enums': ENUMS}
 
 
 def flat_features(mm):
@@ -96,6 +101,7 @@ def opposite_index(mm):
 
 
 DEFAULT_OBJS = ['A', 'A', 'A2', 'B', 'B', 'B', 'C']
+DIAMOND_OBJS = ['A', 'Both', 'A2', 'B', 'B', 'B', 'Both']
 
 
 def conforming_values(mm, objs, fd, rng, wrong=False):
@@ -177,6 +183,8 @@ def gen_op(mm, objs, nres, rng, p_wrong=0.06, weights=None):
         if k in ('clear', 'del'):
             return [k, o, fi]
         if k in ('extend', 'update', 'iadd'):
+            if rng.random() < 0.12:
+                return ['extendself', o, fi, k]          # c.extend(c) / c += c : the argument is the collection itself
             return [k, o, fi, [v() for _ in range(rng.randrange(0, 4))]]
         if k == 'assign':
             return ['assign', o, fi, [v() for _ in range(rng.randrange(0, 4))], rng.choice(['list', 'list', 'tuple', 'gen'])]
@@ -200,9 +208,15 @@ def gen_case(rng, templates=None, nops=12, nres=2, objs=None, p_wrong=0.06, weig
     if templates is None:
         n = rng.randrange(2, 6)
         templates = rng.sample(pool, min(n, len(pool)))
-    mm = make_mm(templates)
-    objs = objs or DEFAULT_OBJS
-    hist = [gen_op(mm, objs, nres, rng, p_wrong, weights) for _ in range(rng.randrange(max(1, nops // 2), nops + 1))]
+    diamond = rng.random() < 0.3
+    mm = make_mm(templates, diamond)
+    objs = objs or (DIAMOND_OBJS if diamond else DEFAULT_OBJS)
+    hist = []
+    for _ in range(rng.randrange(max(1, nops // 2), nops + 1)):
+        if hist and rng.random() < 0.1:
+            hist.append(list(rng.choice(hist)))          # the same call again (idempotent re-assignment, second append...)
+        else:
+            hist.append(gen_op(mm, objs, nres, rng, p_wrong, weights))
     return {'mm': mm, 'templates': templates, 'objs': list(objs), 'nres': nres, 'strings': STRINGS, 'history': hist}
 
 
@@ -247,3 +261,24 @@ def gen_focus_case(rng, template, nops=10, nres=1, objs=None):
         else:
             hist.append(['rappend', 0, rng.randrange(len(objs))])
     return {'mm': mm, 'templates': [template], 'objs': list(objs), 'nres': nres, 'strings': STRINGS, 'history': hist}
+
+
+def gen_delete_case(rng, nres=1):
+    """a containment chain several levels deep with references into and out of it, then delete()"""
+    t = rng.choice(['ctree', 'ctree0'])
+    extra = rng.sample(['rself', 'rn', 'r1', 'pnn', 'spair', 'snn', 'rl'], rng.randrange(1, 4))
+    mm = make_mm([t] + extra)
+    objs = ['A', 'A', 'A', 'A', 'A2', 'B', 'B']
+    ff = flat_features(mm)
+    name2fi = {fd['name']: i for i, (_, fd) in enumerate(ff)}
+    sub = name2fi['sub'] if t == 'ctree' else name2fi['subs']
+    depth = rng.randrange(2, 5)
+    hist = []
+    for i in range(depth):
+        hist.append(['append', i, sub, ['o', i + 1]])
+    if nres and rng.random() < 0.6:
+        hist.append(['rappend', 0, 0])
+    for _ in range(rng.randrange(2, 7)):
+        hist.append(gen_op(mm, objs, nres, rng, 0.0, {'delete': 0.0, 'res': 0.05}))
+    hist.append(['delete', rng.randrange(0, depth), rng.choice([1, 1, 1, 0])])
+    return {'mm': mm, 'templates': [t] + extra, 'objs': objs, 'nres': nres, 'strings': STRINGS, 'history': hist}
